@@ -225,6 +225,11 @@ def run(P, R, tier):
                 'the returned frame is not a fresh read of the dataset path')
     R.floor('C10.b', 'return statements', len(rets), 1)
 
+    for g in [F] + list(F.nested.values()):
+        for c in astq.own_calls(g):
+            if norm(c.func).endswith('json.dumps') and any(k.arg == 'allow_nan' and norm(k.value) == 'False' for k in c.keywords):
+                R.bad('C10.b', g, c, f'`{norm(c)}` refuses NaN bounds: with an all-missing partition the call raises after the parts and _metadata were written, leaving the dataset '
+                                     f'without _common_metadata')
     # ---------------------------------------------------------------- C10.c naming
     out_tpls = []
     for c in created.get('out', []):
